@@ -306,6 +306,10 @@ def worker(args):
                 order = [n for n, _pos in sorted(ln.items(), key=lambda kv: kv[1]) if n != 65536]
                 if order != sorted(order):
                     key += ':unsorted-program-image'
+                elif any(h[0] == 'file' and h[2][:2] in ('ff', 'fe', 'fd', 'fc') for h in hist):
+                    # a fuzzed binary (tokenised/protected) program file was written and possibly loaded in
+                    # this session: the stored image may violate the invariants the editing code relies on
+                    key += ':after-fuzzed-binary-program-file'
             except BaseException:
                 pass
             count('host-exception')
@@ -503,8 +507,80 @@ def site_models(ctx):
     ctx.compare(cases, outs, lines, label='renum-trap')
 
 
+FIXED_HISTORIES = [
+    # known finding C01-F1: corrupted tokenised file with lines out of order, then RENUM and MERGE
+    [['file', 'Z.BAS', 'ffb5530002220e843a0005080a010086d01401c11f201c203a1c1f8f0f0e84208f1c0f2391002d241e021f0e1d8f8f'
+                       '9122ff410f0f4120911c0e3a20220002892801fe84208f000000'],
+     ['execute', 'LOAD "Z"'], ['execute', 'RENUM'],
+     ['file', 'X.BAS', b'10 REM PC-BASIC test\r\n20 REM MID$ function\r\n30 OPEN "OUTPUT.TXT" FOR OUTPUT AS 1\r\n'.hex()],
+     ['execute', 'MERGE "X"']],
+    # repaired defects, kept as regression histories
+    [['execute', 'SCREEN 1'], ['execute', 'DEF SEG=0:PRINT PEEK(1126)']],
+    [['execute', 'CLEAR 639,32767,&HFFFF,32767'], ['execute', 'PRINT FRE("")']],
+    [['execute', 'BLOAD "KYBD:",256'], ['execute', 'OPEN "CON" FOR APPEND AS 1'], ['execute', 'BSAVE "ZZZ",80,-1']],
+    [['execute', 'FOR I=1.7E38 TO 255 STEP 1E38:NEXT'], ['execute', 'PRINT 1 IMP "a"'], ['execute', 'PRINT HEX$(-65537)']],
+    [['execute', 'DEF SEG=&HB800:BSAVE "V",&HFFFF,&H8000'], ['execute', 'SCREEN 1:A$="XA$;":DRAW A$']],
+    [['execute', 'TIME$="-1:00:00"'], ['execute', 'ENVIRON "A=B"+CHR$(0)+"C"'], ['execute', 'PRINT &O1 2']],
+]
+
+
+def fixed_histories(ctx):
+    """Deterministic histories: the known finding (so that it is shown on every run) and repaired defects."""
+    from pcbasic.basic import Session
+    from pcbasic.basic.base import error
+    signal.signal(signal.SIGALRM, _alarm)
+    for hi, history in enumerate(FIXED_HISTORIES):
+        root = tempfile.mkdtemp(prefix='pcbv_c01f_')
+        cwd = os.getcwd()
+        mount = os.path.join(root, 'a', 'b', 'mount')
+        os.makedirs(mount)
+        os.chdir(mount)
+        s = Session(output_streams=None, input_streams=None, devices={'C': mount}, current_device='C')
+        s.start()
+        done = []
+        try:
+            for h in history:
+                done.append(h)
+                if h[0] == 'file':
+                    with open(os.path.join(mount, h[1]), 'wb') as f:
+                        f.write(bytes.fromhex(h[2]))
+                    continue
+                ctx.case(('fixed', hi, h[1]))
+                ctx.count('fixed:cases')
+                signal.setitimer(signal.ITIMER_REAL, 5.0)
+                try:
+                    s.execute(h[1].encode('latin-1'))
+                except (error.Exit, CaseTimeout):
+                    break
+                except Exception as e:
+                    import sys as _sys
+                    key = '%s@%s' % (type(e).__name__, site_of(_sys.exc_info()[2]))
+                    try:
+                        ln = s._impl.program.line_numbers
+                        order = [n for n, _pos in sorted(ln.items(), key=lambda kv: kv[1]) if n != 65536]
+                        if order != sorted(order):
+                            key += ':unsorted-program-image'
+                        elif any(x[0] == 'file' and x[2][:2] in ('ff', 'fe', 'fd', 'fc') for x in done):
+                            key += ':after-fuzzed-binary-program-file'
+                    except Exception:
+                        pass
+                    ctx.fail(key, {'kind': 'fixed', 'how': 'execute', 'input': h[1], 'history': [list(x) for x in done]},
+                             'host exception escaped the session API: %s: %s (input %r)' % (type(e).__name__, e, h[1]))
+                    break
+                finally:
+                    signal.setitimer(signal.ITIMER_REAL, 0)
+        finally:
+            try:
+                s.close()
+            except Exception:
+                pass
+            os.chdir(cwd)
+            shutil.rmtree(root, ignore_errors=True)
+
+
 def run(ctx):
     site_models(ctx)
+    fixed_histories(ctx)
     if ctx.quick:
         plan = [('templates', 2100), ('corpus', 1700), ('files', 560), ('default', 420), ('renum', 280)]
     else:
